@@ -6,6 +6,8 @@ from ..report import AnalysisError
 from ..srcmodel import unparse, norm, fold_const, walk_no_nested, calls_in
 from .common import is_method_call, get_kw, recv_of
 from . import mergerules as mr
+from . import mergetrace as mt
+from . import tr
 
 PROP = 'C02'
 DECIDED = [
@@ -27,57 +29,80 @@ def r5(repo, run):
                           '%s deletes by default = %r (expected %r: lists are replaced wholesale, mappings merged)' % (cls, v, exp))
         else:
             run.ok('C02.R5', (repo.classes[cls].module.relpath, repo.classes[cls].node.lineno, cls), '%s._default_delete == %r (from %s)' % (cls, exp, owner))
+    # mapping onto list: decided on the traces (exception edges followed, _validate_index inlined) of
+    # ConfigList.ayns.on_merge_impl, with the path facts evaluated for concrete keys against a list of length 3
     li = repo.func('ConfigList.ayns.on_merge_impl')
-    guard = [s for s in li.node.body if isinstance(s, ast.If) and norm(s.test) in ('isinstance(other, dict)', 'isinstance(other, ConfigDict)')]
-    if len(guard) != 1:
-        raise AnalysisError('ConfigList.on_merge_impl: `if isinstance(other, dict)` validation block not recognised')
-    blk = guard[0]
-    loops = [s for s in blk.body if isinstance(s, ast.For)]
-    raises = [s for s in blk.body if isinstance(s, ast.If) and any(isinstance(x, ast.Raise) for x in s.body)]
-    if len(loops) != 1 or len(raises) != 1:
-        raise AnalysisError('ConfigList.on_merge_impl: validation loop / raise not recognised')
-    lp, rz = loops[0], raises[0]
-    it = norm(lp.iter)
-    problems = []
-    if it not in ('other.ayns.children_names()', 'other', 'other.keys()', 'other._children', 'other._children.keys()'):
-        problems.append('validation loop iterates %s (not every key of the newer mapping)' % it)
-    val = [c for c in calls_in(lp) if is_method_call(c, recv='self', member='_validate_index', ayns=False)]
-    tr = [s for s in lp.body if isinstance(s, ast.Try)]
-    acc = norm(rz.test)
-    if not val or not tr:
-        problems.append('keys are not validated with self._validate_index inside try/except')
+    paths = tr.paths_of(repo, li, no_inline=set(mt.NI), follow_exceptions=True)
+    KEYS = ('each(other.ayns.children_names())', 'each(other)', 'each(other.keys())', 'each(other._children)', 'each(other._children.keys())', 'each(other._children.items())[0]', 'each(other.ayns.named_children())[0]')
+    mp = [p for p in paths if tr.fact(p, 'isinstance(other, dict)', True) or tr.fact(p, 'isinstance(other, ConfigDict)', True)]
+    if not mp:
+        raise AnalysisError('ConfigList.on_merge_impl: mapping-onto-list branch not recognised')
+    texts = ' '.join(t for p in mp for t, _ in p.facts)
+    K = [k for k in KEYS if k in texts]
+    if not K:
+        raise AnalysisError('ConfigList.on_merge_impl: validation of mapping keys not recognised')
+    K = max(K, key=len)
+    iterated = [p for p in mp if any(K in t for t, _ in p.facts) or any(e.in_loop for e in p.events)]
+    LEN = 3
+    bad = []
+    decided_any = 0
+    for k in (-5, -4, -3, -2, -1, 0, 1, 2, 3, 4, 'x'):
+        valid = isinstance(k, int) and -LEN <= k < LEN
+        sub = {K: k, 'len(self)': LEN}
+        feas = []
+        for p in iterated:
+            ok_, d = tr.feasible(p, sub)
+            decided_any += d
+            if ok_:
+                feas.append(p)
+        completes = [p for p in feas if p.status == 'return' and any(e.kind == 'call' and e.attr == 'on_merge_impl' for e in p.events)]
+        if valid and not completes:
+            bad.append('the valid index %r of a list of length %d is rejected' % (k, LEN))
+        if not valid and completes:
+            bad.append('the out-of-range / invalid key %r is accepted for a list of length %d (merged as if it were a new entry): %s' % (k, LEN, tr.describe(completes[0], 8)))
+        if not valid and isinstance(k, int) and not any(p.status == 'raise' and p.ret is not None and 'MergeError' in p.ret.text[:40] for p in feas):
+            bad.append('the out-of-range key %r does not raise MergeError' % (k,))
+    if not decided_any:
+        raise AnalysisError('ConfigList.on_merge_impl: validation of mapping keys not recognised (no path condition mentions the key)')
+    if bad:
+        run.violation('C02.R5', li, 'mapping-onto-list index validation', '; '.join(bad[:3]))
     else:
-        st = get_kw(val[0], 'strict')
-        if st is not None and not (isinstance(st, ast.Constant) and st.value is True):
-            problems.append('index validation is not strict (%s)' % unparse(val[0]))
-        if norm(val[0].args[0]) != unparse(lp.target):
-            problems.append('validated value is not the loop key')
-        h = tr[0].handlers
-        if not h or not any(unparse(x.type) in ('IndexError', '(IndexError, TypeError)', 'Exception') for x in h if x.type is not None):
-            problems.append('IndexError of the strict index check is not handled')
-        elif not any(isinstance(c.func, ast.Attribute) and c.func.attr == 'append' and unparse(c.func.value) == acc for hh in h for c in calls_in(hh)):
-            problems.append('invalid keys are not collected into %s' % acc)
-        else:
-            for hh in h:
-                top = [st for st in hh.body if isinstance(st, ast.Expr) and isinstance(st.value, ast.Call) and isinstance(st.value.func, ast.Attribute) and st.value.func.attr == 'append' and unparse(st.value.func.value) == acc]
-                skips = [x for x in ast.walk(ast.Module(body=hh.body, type_ignores=[])) if isinstance(x, (ast.Continue, ast.Break, ast.Return))]
-                if not top or skips:
-                    problems.append('an out-of-range key is not always reported (the handler of the strict index check skips some keys): such keys are then treated as new entries of the list')
-    if not any('MergeError' in unparse(x.exc) for x in rz.body if isinstance(x, ast.Raise) and x.exc is not None):
-        problems.append('invalid keys do not raise MergeError')
-    sup = [c for c in calls_in(li.node) if is_method_call(c, member='on_merge_impl', ayns=True)]
-    if not sup or sup[0].lineno < rz.lineno:
-        problems.append('the merge proper (super().ayns.on_merge_impl) is not after the validation')
-    if problems:
-        run.violation('C02.R5', li, 'mapping-onto-list index validation', '; '.join(problems), node=blk)
-    else:
-        run.ok('C02.R5', (li.file, blk.lineno, li.qualname), 'mapping onto list: every key strictly validated, MergeError raised before merging')
-    # strict validation itself: out-of-range raises
+        run.ok('C02.R5', li, 'mapping onto list: keys -5..4 and a non-integer against length 3', 'merge proceeds iff -len <= key < len; MergeError otherwise (path conditions evaluated per key)')
+    # strict validation itself, evaluated per index against a list of length 3
     vi = repo.func('ConfigList._validate_index')
-    src = norm(vi.node)
-    if 'raise IndexError' not in src or 'and strict' not in src:
-        raise AnalysisError('ConfigList._validate_index: strict range check not recognised')
-    run.ok('C02.R5', vi, '_validate_index raises IndexError for out-of-range indices when strict')
+    vp = tr.paths_of(repo, vi, follow_exceptions=False)
+    ps = vi.params()
+    if len(ps) < 3:
+        raise AnalysisError('ConfigList._validate_index: (self, index, strict) signature not recognised')
+    bad = []
+    rows = 0
+    for k in (-5, -4, -3, -2, -1, 0, 1, 2, 3, 4):
+        for strict in (True, False):
+            sub = {ps[1]: k, ps[2]: strict, 'len(self)': LEN}
+            feas = [p for p in vp if tr.feasible(p, sub)[0]]
+            rows += 1
+            if len(feas) != 1:
+                raise AnalysisError('ConfigList._validate_index: %d feasible paths for index %r (path conditions not decided)' % (len(feas), k))
+            p = feas[0]
+            valid = -LEN <= k < LEN
+            if strict and not valid:
+                if p.status != 'raise' or 'IndexError' not in p.ret.text[:30]:
+                    bad.append('strict validation of index %r against length %d does not raise IndexError' % (k, LEN))
+            elif p.status != 'return':
+                bad.append('index %r (strict=%r) is rejected for length %d' % (k, strict, LEN))
+            else:
+                try:
+                    got = tr._ev_const(p.ret.ast, sub)
+                except tr._Unknown:
+                    raise AnalysisError('ConfigList._validate_index: returned position %s not evaluable' % p.ret.text[:60])
+                want = min(LEN, max(0, k if k >= 0 else LEN + k))
+                if got != want:
+                    bad.append('index %r maps to position %r in a list of length %d (expected %r)' % (k, got, LEN, want))
+    run.table('C02.R5:_validate_index', rows, 'index -5..4 x strict against length 3')
+    if bad:
+        run.violation('C02.R5', vi, '_validate_index table', '; '.join(bad[:3]))
+    else:
+        run.ok('C02.R5', vi, '_validate_index raises IndexError for out-of-range indices when strict; normalises negative indices (%d rows)' % rows)
 
 
 def check(repo, run, tier):
@@ -105,6 +130,11 @@ def mutants(repo):
         Mutant('list-merges-by-default', lambda r: in_func(r, 'ConfigList.__init__', "    def __init__(self, value=None", "    _x = 0\n    def __init__(self, value=None") if False else
                __import__('aylint.mutate', fromlist=['in_module']).in_module(r, 'list', "class ConfigList(ComposedNode, list):\n    _default_delete = True", "class ConfigList(ComposedNode, list):\n    _default_delete = False"), ['C02.R5']),
         Mutant('list-index-validation-lenient', lambda r: in_func(r, 'ConfigList.ayns.on_merge_impl', "self._validate_index(key, strict=True)", "self._validate_index(key, strict=False)"), ['C02.R5']),
+        Mutant('validate-index-accepts-len', lambda r: in_func(r, 'ConfigList._validate_index', "(abs(index) > len(self) or index == len(self)) and strict", "abs(index) > len(self) and strict"), ['C02.R5']),
+        Mutant('validate-index-rejects-minus-len', lambda r: in_func(r, 'ConfigList._validate_index', "abs(index) > len(self)", "abs(index) >= len(self)"), ['C02.R5']),
+        Mutant('list-validation-handler-skips-negative', lambda r: in_func(r, 'ConfigList.ayns.on_merge_impl', "                except IndexError:\n", "                except IndexError:\n                    if key < 0:\n                        continue\n"), ['C02.R5']),
+        Mutant('neutral-validate-index-two-ifs', lambda r: in_func(r, 'ConfigList._validate_index', "        if (abs(index) > len(self) or index == len(self)) and strict:\n            raise IndexError('List index out of range')",
+               "        if strict:\n            if index >= len(self) or -index > len(self):\n                raise IndexError('List index out of range')"), neutral=True),
         Mutant('neutral-fold-slice-idiom', lambda r: in_func(r, 'Builder.flatten',
                "        for i in range(1, len(self.stages)):\n            root = root.ayns.merge(self.stages[i])", "        for stage in self.stages[1:]:\n            root = root.ayns.merge(stage)"), neutral=True),
     ]
